@@ -93,7 +93,7 @@
 //! include undo data (old row value) for rollback support.
 
 use crate::btree::BTree;
-use crate::database::dml::mvcc_helpers::{get_user_data, wrap_record_for_delete};
+use crate::database::dml::mvcc_helpers::{get_user_data, is_tombstone, wrap_record_for_delete};
 use crate::database::macros::with_btree_storage;
 use crate::database::row::Row;
 use crate::database::{Database, ExecuteResult};
@@ -361,6 +361,11 @@ impl Database {
                 }
 
                 let value = cursor.value()?;
+
+                if is_tombstone(value) {
+                    cursor.advance()?;
+                    continue;
+                }
 
                 let user_data = get_user_data(value);
                 let record = RecordView::new(user_data, &schema)?;
